@@ -38,7 +38,29 @@ func ZZ_C04_crash() {
 	m, tip := zzInvState(e, H)
 	m.exec = det
 	e.exec = &det.zzExec
-	ts := int64(tip.header.BaseHeader.Time)
+	zzC04Run(e, m, det, H, int64(tip.header.BaseHeader.Time), H)
+}
+
+// ZZ_C04_fresh_crash: the same on a chain of length 0: the sequencer is
+// started for the first time (real NewManager on an empty store, any initial
+// height) and dies at an arbitrary durable write of its first production step.
+func ZZ_C04_fresh_crash() {
+	zzsym.FreezeClock()
+	I := zzsym.U64("I")
+	zzsym.Assume(I >= 1 && I <= 1<<40)
+	e := zzNewEnv(I)
+	det := &zzDetExec{}
+	e.exec = &det.zzExec
+	m, err := NewManager(context.Background(), e.signer, e.cfg, e.gen, e.store, e.exec, e.seq, nil, m0logger(), nil, nil, e.hb, e.db, NopMetrics(), 1, 1, DefaultManagerOptions())
+	zzsym.Assert(err == nil, "first-start-succeeds")
+	if err != nil {
+		return
+	}
+	m.exec = det
+	zzC04Run(e, m, det, I-1, e.gen.GenesisDAStartTime.UnixNano(), I)
+}
+
+func zzC04Run(e *zzEnv, m *Manager, det *zzDetExec, H uint64, ts int64, lo uint64) {
 	mkAns := func(pfx string, k int64) zzSeqAnswer {
 		a := zzSeqAnswer{ts: zzsym.TimeOf(ts + k), txs: [][]byte{}}
 		if zzsym.Bool(pfx + "nonempty") {
@@ -96,7 +118,7 @@ func ZZ_C04_crash() {
 	note()
 	zzsym.Assert(err == nil, "first-crash-free-step-succeeds")
 	zzsym.Assert(e.store.height == before+1, "first-crash-free-step-adds-exactly-one-block")
-	zzImageConsistent(e, H, "")
+	zzImageConsistent(e, lo, "")
 	// the chain is still hash linked and executed on the right roots
 	for x := H + 1; x <= e.store.height; x++ {
 		sl, prev := e.store.blocks[x], e.store.blocks[x-1]
